@@ -6,9 +6,10 @@ K2n == {NULLK, 1, 2}
 One == {NoCol}
 Offs5 == { <<0>>, <<0, 2>>, <<0, 1, 3>>, <<0, 4>>, <<0, 2, 4>> }
 Offs4 == { <<0>>, <<0, 2>>, <<0, 1, 3>> }
+Offs3 == { <<0>>, <<0, 2>>, <<0, 1>> }
 IxRange == {"range"}
 IxAll == {"range", "repeated", "shuffled"}
 FileJson(f) == [key |-> f.key, part |-> f.part, rows |-> SetToSeq(f.rows)]
-Export == Done => PrintT(ToJson([frame |-> [r \in 1..NRows |-> <<frame[r].k1, frame[r].k2>>], offs |-> offs, index |-> ixk,
+Export == Done => PrintT(ToJson([frame |-> [r \in 1..NRows |-> <<frame[r].k1, frame[r].k2, frame[r].k3>>], offs |-> offs, index |-> ixk,
                                  files |-> SetToSeq({FileJson(f) : f \in files})]))
 =============================================================================
